@@ -62,6 +62,29 @@ theorem Trk.allocWrite {hb : H} {u : Nat} {tr0 : List Eff} {s : S} (T : Trk hb u
   · simp
   · simp
 
+/-! ### the hook value cache -/
+
+theorem Trk.cacheStep {hb : H} {u : Nat} {tr0 : List Eff} {s : S} (T : Trk hb u tr0 s) {o : Nat} (c : List Nat)
+    (ht : hb.next ≤ o ∨ Owned hb u o) (ho : o < s.h.next) : Step hb u tr0 s (s.setCache o c) :=
+  ⟨T.setCache ht ho, by simp⟩
+
+theorem cacheAdd_spec {hb : H} {u : Nat} {tr0 : List Eff} {s : S} (T : Trk hb u tr0 s) {o : Nat} (c : Nat)
+    (ht : hb.next ≤ o ∨ Owned hb u o) (ho : o < s.h.next) : Step hb u tr0 s (cacheAdd s o c) :=
+  T.cacheStep _ ht ho
+
+theorem reCache_spec {hb : H} {u : Nat} {tr0 : List Eff} {s : S} (T : Trk hb u tr0 s) {o : Nat}
+    (ht : hb.next ≤ o ∨ Owned hb u o) (ho : o < s.h.next) : Step hb u tr0 s (reCache s o) :=
+  T.cacheStep _ ht ho
+
+theorem onRoll_spec {hb : H} {u : Nat} {tr0 : List Eff} {s : S} (T : Trk hb u tr0 s) (g : S → Nat → S)
+    (roll : Option Nat) (hr : ∀ r, roll = some r → (hb.next ≤ r ∨ Owned hb u r) ∧ r < s.h.next)
+    (hg : ∀ r, (hb.next ≤ r ∨ Owned hb u r) → r < s.h.next → Step hb u tr0 s (g s r)) :
+    Step hb u tr0 s (onRoll g s roll) := by
+  unfold onRoll
+  cases roll with
+  | none => exact Step.refl T
+  | some r => exact hg r (hr r rfl).1 (hr r rfl).2
+
 /-! ### disk elements -/
 
 theorem mkDisks_spec {hb : H} {u : Nat} {tr0 : List Eff} (p : Nat) :
@@ -266,21 +289,46 @@ theorem Locals.mono {hb : H} {u i o : Nat} {roll : Option Nat} {cs : List Nat} {
   hr := fun r hr => ⟨(L.hr r hr).1, Nat.lt_of_lt_of_le (L.hr r hr).2 h⟩
   hc := fun c hc => ⟨(L.hc c hc).1, Nat.lt_of_lt_of_le (L.hc c hc).2 h⟩
 
+theorem cacheHooks_spec {hb : H} {u : Nat} {tr0 : List Eff} (hu : u < hb.next) {i o : Nat} {roll : Option Nat}
+    {cs : List Nat} {s : S} (T : Trk hb u tr0 s) (L : Locals hb u i o roll cs s) :
+    Step hb u tr0 s (cacheHooks s u i o roll) := by
+  unfold cacheHooks
+  have a := cacheAdd_spec T cIN (Or.inl L.hi.1) L.hi.2
+  have La := L.mono a.mono
+  have b := cacheAdd_spec a.trk cOUT La.ho.1 La.ho.2
+  have Lb := La.mono b.mono
+  have c := cacheAdd_spec b.trk cUNIT (Or.inr (Owned.self u)) (Nat.lt_of_lt_of_le hu b.trk.next_le)
+  have Lc := Lb.mono c.mono
+  have d := onRoll_spec c.trk (fun a r => cacheAdd a r cROLL) roll Lc.hr
+    (fun r h1 h2 => cacheAdd_spec c.trk cROLL h1 h2)
+  exact Step.trans a (Step.trans b (Step.trans c d))
+
 theorem iterBody_spec {hb : H} {u : Nat} {tr0 : List Eff} (wb : Wf hb) (hu : u < hb.next) (P : Producers)
     (hP : P.Safe) {f : Rec} (hf : RecSpec f) {i o : Nat} {roll : Option Nat} (tag : Nat) (ovr : Bool) {cs : List Nat}
     {s : S} (T : Trk hb u tr0 s) (L : Locals hb u i o roll cs s) :
     Step hb u tr0 s (iterBody P f u i o roll tag ovr cs s) := by
   unfold iterBody
-  obtain ⟨a, _⟩ := solveChildren_spec wb hf cs s i T L.hi.2 L.hc
-  have La := L.mono a.mono
-  have b := inHooks_spec a.trk tag La.hi.1 La.hi.2
-  have Lb := La.mono b.mono
+  have z := reCache_spec T (Or.inl L.hi.1) L.hi.2
+  have Lz := L.mono z.mono
+  obtain ⟨a, _⟩ := solveChildren_spec wb hf cs _ i z.trk Lz.hi.2 Lz.hc
+  have La := Lz.mono a.mono
+  have a1 := reCache_spec a.trk (Or.inr (Owned.self u)) (Nat.lt_of_lt_of_le hu a.trk.next_le)
+  have La1 := La.mono a1.mono
+  have a2 := onRoll_spec a1.trk reCache roll La1.hr (fun r h1 h2 => reCache_spec a1.trk h1 h2)
+  have La2 := La1.mono a2.mono
+  have a3 := reCache_spec a2.trk La2.ho.1 La2.ho.2
+  have La3 := La2.mono a3.mono
+  have b := inHooks_spec a3.trk tag La3.hi.1 La3.hi.2
+  have Lb := La3.mono b.mono
   have c := outHooks_spec b.trk P hP tag ovr i cs roll Lb.ho.1 Lb.ho.2
   have Lc := Lb.mono c.mono
   have d := unitHooks_spec c.trk hu
   have Ld := Lc.mono d.mono
   have e := rollHooks_spec d.trk roll Ld.hr
-  exact Step.trans a (Step.trans b (Step.trans c (Step.trans d e)))
+  have Le := Ld.mono e.mono
+  have g := cacheHooks_spec hu e.trk Le
+  exact Step.trans z (Step.trans a (Step.trans a1 (Step.trans a2 (Step.trans a3
+    (Step.trans b (Step.trans c (Step.trans d (Step.trans e g))))))))
 
 theorem iterN_spec {hb : H} {u : Nat} {tr0 : List Eff} {i o : Nat} {roll : Option Nat} {cs : List Nat} (g : S → S)
     (hg : ∀ s, Trk hb u tr0 s → Locals hb u i o roll cs s → Step hb u tr0 s (g s)) :
@@ -296,32 +344,43 @@ theorem iterN_spec {hb : H} {u : Nat} {tr0 : List Eff} {i o : Nat} {roll : Optio
 
 /-! ### init_solve -/
 
+theorem runRotator_spec {hb : H} {u : Nat} {tr0 : List Eff} (wb : Wf hb) {f : Rec} (hf : RecSpec f) {s : S} {p : Nat}
+    (T : Trk hb u tr0 s) (hul : u < s.h.next) (hp : p < s.h.next) :
+    Step hb u tr0 s (runRotator f s u p).1 ∧ (runRotator f s u p).2 < (runRotator f s u p).1.h.next := by
+  unfold runRotator
+  simp only
+  have hle := T.next_le
+  have T1 : Trk hb u tr0 (s.alloc { kind := .unit, tag := 4, weak := some u }).1 := by
+    apply T.allocPlain
+    · intro v hv; simp [Obj.ptrs] at hv; omega
+    · intro g v h; simp [List.lookup] at h
+    · rfl
+  have T2 : Trk hb u tr0
+      ((s.alloc { kind := .unit, tag := 4, weak := some u }).1.alloc { kind := .subList, weak := some s.h.next }).1 := by
+    apply T1.allocPlain
+    · intro v hv; simp [Obj.ptrs] at hv; simp only [alloc_next]; omega
+    · intro g v h; simp [List.lookup] at h
+    · rfl
+  have T3 := T2.write (o := s.h.next) (f := fSUB) (v := s.h.next + 1) (Or.inl hle)
+    (by simp only [alloc_next]; omega) (by simp only [alloc_next]; omega) (fun _ => by omega)
+    (by intro _ _; simp [alloc_obj, ownKind, fSUB, fOUT, fROLL])
+  obtain ⟨st, hr⟩ := T3.sub wb hf (c := s.h.next) (p := p) (Or.inl hle)
+    (by simp only [write_next, alloc_next]; omega) (by simp only [write_next, alloc_next]; omega)
+  simp only [alloc_id, alloc_next]
+  refine ⟨⟨st.trk, ?_⟩, hr⟩
+  have := st.mono; simp only [write_next, alloc_next] at this; omega
+
 theorem preProcess_spec {hb : H} {u : Nat} {tr0 : List Eff} (wb : Wf hb) {f : Rec} (hf : RecSpec f) {s : S} {p : Nat}
     (T : Trk hb u tr0 s) (hul : u < s.h.next) (hp : p < s.h.next) :
     Step hb u tr0 s (preProcess f s u p).1 ∧ (preProcess f s u p).2 < (preProcess f s u p).1.h.next := by
   unfold preProcess
   simp only
   split
-  · have hle := T.next_le
-    have T1 : Trk hb u tr0 (s.alloc { kind := .unit, tag := 4, weak := some u }).1 := by
-      apply T.allocPlain
-      · intro v hv; simp [Obj.ptrs] at hv; omega
-      · intro g v h; simp [List.lookup] at h
-      · rfl
-    have T2 : Trk hb u tr0
-        ((s.alloc { kind := .unit, tag := 4, weak := some u }).1.alloc { kind := .subList, weak := some s.h.next }).1 := by
-      apply T1.allocPlain
-      · intro v hv; simp [Obj.ptrs] at hv; simp only [alloc_next]; omega
-      · intro g v h; simp [List.lookup] at h
-      · rfl
-    have T3 := T2.write (o := s.h.next) (f := fSUB) (v := s.h.next + 1) (Or.inl hle)
-      (by simp only [alloc_next]; omega) (by simp only [alloc_next]; omega) (fun _ => by omega)
-      (by intro _ _; simp [alloc_obj, ownKind, fSUB, fOUT, fROLL])
-    obtain ⟨st, hr⟩ := T3.sub wb hf (c := s.h.next) (p := p) (Or.inl hle)
-      (by simp only [write_next, alloc_next]; omega) (by simp only [write_next, alloc_next]; omega)
-    simp only [alloc_id, alloc_next]
-    refine ⟨⟨st.trk, ?_⟩, hr⟩
-    have := st.mono; simp only [write_next, alloc_next] at this; omega
+  · have z := T.cacheStep ((s.h.obj u).cache.filter (· != cROT)) (Or.inr (Owned.self u)) hul
+    split
+    · obtain ⟨a, hr⟩ := runRotator_spec wb hf (p := p) z.trk (by simpa using hul) (by simpa using hp)
+      exact ⟨Step.trans z a, hr⟩
+    · exact ⟨z, by simpa using hp⟩
   · exact ⟨Step.refl T, hp⟩
 
 theorem storeIn_spec {hb : H} {u : Nat} {tr0 : List Eff} {s : S} (T : Trk hb u tr0 s) (hu : u < hb.next) (p1 : Nat) :
